@@ -333,7 +333,7 @@ func (w *ownWorld) otherUser(not ...string) string {
 }
 
 var posKinds = []string{"cl.withdraw", "cl.add", "cl.transfer", "cl.collectspread", "cl.collectinc"}
-var lockKinds = []string{"lock.begin", "lock.extend", "lock.setrr", "lock.force", "sf.delegate", "sf.undelegate", "sf.unbond", "sf.undelunbond"}
+var lockKinds = []string{"lock.begin", "lock.extend", "lock.setrr", "lock.force", "sf.delegate", "sf.undelegate", "sf.unbond", "sf.undelunbond", "sf.convert"}
 var denomKinds = []string{"tf.mint", "tf.burn", "tf.force", "tf.admin", "tf.meta", "tf.hook"}
 
 func kindsFor(obj string) []string {
@@ -440,6 +440,12 @@ func (w *ownWorld) build(kind, obj, sender string, s *snap, variant int) *delive
 				c = part[0]
 			}
 			d.msg = &sftypes.MsgSuperfluidUndelegateAndUnbondLock{Sender: sb, LockId: id, Coin: c}
+		case "sf.convert": // the lock's pool shares are withdrawn and the OSMO side is staked (whatever the lock's superfluid state)
+			if len(l.Coins) != 1 || l.Coins[0].Denom != w.gammDenom {
+				return nil
+			}
+			d.msg = &sftypes.MsgUnbondConvertAndStake{LockId: id, Sender: sb, ValAddr: w.vals[w.rng.Intn(len(w.vals))],
+				MinAmtToStake: osmomath.ZeroInt(), SharesToConvert: sdk.NewCoin(w.gammDenom, osmomath.ZeroInt())}
 		}
 	case strings.HasPrefix(kind, "tf."):
 		if variant != 0 {
@@ -662,6 +668,8 @@ func (w *ownWorld) lockKindFor(s *snap, obj string) string {
 	}
 	r := w.rng.Intn(10)
 	switch {
+	case len(l.Coins) == 1 && l.Coins[0].Denom == w.gammDenom && r == 9:
+		return "sf.convert"
 	case bonded && r < 7:
 		return w.pick([]string{"sf.undelegate", "sf.undelunbond", "sf.undelegate"})
 	case unbonding && !l.IsUnlocking() && r < 6:
